@@ -454,6 +454,8 @@ def _main(run, tier, seed):
     from harness import cache_common as cc
 
     for v in cc.printed_tuples(rv.raw, "DIVERGE"):
+        if v[1] not in meta:      # the corrupted copy made for the binding self-test
+            continue
         m = meta[v[1]]
         run.divergence("shared-model-data-changed", {"history": [rname(reqs, x) for x in m["hist"]],
                                                      "call": v[3], "objects": v[4]})
